@@ -119,7 +119,7 @@ func runC07(ctx *Ctx) {
 		maxLen, nkeys = 512, 22
 	}
 	keys := keyAlphabet(nkeys)
-	r.Rule = fmt.Sprintf("full product: alg{NEA0,NEA1,NEA2,NIA1,NIA2} x len 1..%d x BEARER 0..31 x DIR 0..1 x COUNT %v x %d keys x %d data patterns (thorough: lengths>96 use bearers {0,1,31} and 6 keys), "+
+	r.Rule = fmt.Sprintf("full product: alg{NEA0,NEA1,NEA2,NIA1,NIA2} x len 1..%d x BEARER 0..31 x DIR 0..1 x COUNT %v x %d keys x %d data patterns (thorough: lengths>96 use bearers {0,1,31} and 6 keys), plus long lengths 2^k-1,2^k,2^k+1,2^k+3,2^k+4 for 2^k=1024..8192 (65536 in thorough) x 2 directions x 2 COUNTs, "+
 		"plus all operation sequences of depth 2 and 3 over 12 operations (result independent of earlier calls), plus 4x256 SNOW 3G table entries; oracle: independent refcrypto (ciphertext xor plaintext == reference keystream on every octet, MAC equality, twice = identity); "+
 		"every case has a distinct parameter tuple by construction and all are non-trivial (each exercises the algorithm on non-empty data)", maxLen, counts, nkeys, len(pats))
 	r.Assume("refcrypto anchors: TS 35.207 set 1, RFC 4493, TS 33.401 C.1 EEA2 set 1, SNOW 3G set 1 keystream, UEA2 set 1; no published anchor for the GF(2^64) step of 128-EIA1 (reference written from TS 35.215 4.4 with a different multiplication algorithm)",
@@ -172,6 +172,33 @@ func runC07(ctx *Ctx) {
 		l.Merge()
 		return
 	}
+	// long messages (NAS containers go up to 64K): lengths around powers of two, reduced parameters
+	var longLens []int
+	top := 8192
+	if ctx.Thorough {
+		top = 65536
+	}
+	for n := 1024; n <= top; n *= 2 {
+		longLens = append(longLens, n-1, n, n+1, n+3, n+4)
+	}
+	longLens = append(longLens, 1500, 2000, 3000, 5000)
+	ParallelFor(r, len(longLens)*len(algs), func(l *report.Local, i int) {
+		n, a := longLens[i/len(algs)], algs[i%len(algs)]
+		for _, dir := range []uint8{0, 1} {
+			for _, c := range []uint32{0, 0xffffff} {
+				o := c07op{a, keys[2], c, 1, dir, n, 2}
+				out, key, detail := c07run(o)
+				l.CaseN(true, report.H(out))
+				if key != "" {
+					if len(detail) > 300 {
+						detail = detail[:300]
+					}
+					viol(o, key+"/long", detail)
+				}
+			}
+		}
+	})
+	r.Set("long_lengths", longLens)
 	r.Sample(c07op{1, keys[2], 0xff, 1, 0, 8, 2}.String())
 	r.Sample(c07op{11, keys[1], 0xffffffff, 31, 1, maxLen, 1}.String())
 
